@@ -42,6 +42,8 @@ use std::collections::HashMap;
 
 thread_local! {
     static CURRENT_TY: RefCell<Value> = const { RefCell::new(Value::Null) };
+    /// the body of the innermost enclosing `recdef` node: what a `rec` node stands for
+    static REC_BODY: RefCell<Option<&'static Value>> = const { RefCell::new(None) };
 }
 
 pub struct DynRoot;
@@ -288,6 +290,21 @@ impl<'de> DeserializeSeed<'de> for TySeed<'_> {
                 let names = static_names(vs.iter().map(|v| v["n"].as_str().unwrap()).collect());
                 d.deserialize_enum(name(), names, EnumV(vs, names))
             }
+            // a RECURSIVE type definition `T = body[rec := T]`: `recdef` binds, `rec` refers to the innermost binder and is
+            // followed exactly like the derived `Deserialize` of a recursive Rust type follows `Box<T>` — without end unless
+            // the deserializer refuses (C16: "tracing of recursive types stops with an error"; before repo fix aaf3edc a
+            // recursion through Option / newtype structs only exhausted the stack)
+            "recdef" => {
+                let body: &'static Value = Box::leak(Box::new(ty["a"].clone()));
+                let outer = REC_BODY.with(|b| b.replace(Some(body)));
+                let r = TySeed(body).deserialize(d);
+                REC_BODY.with(|b| *b.borrow_mut() = outer);
+                r
+            }
+            "rec" => {
+                let body = REC_BODY.with(|b| *b.borrow()).expect("rec outside recdef");
+                TySeed(body).deserialize(d)
+            }
             other => panic!("unknown type tag {other}"),
         }
     }
@@ -363,6 +380,7 @@ fn l_(t: &str) -> Value { json!({"t": t}) }
 fn opt_(a: Value) -> Value { json!({"t": "option", "a": a}) }
 fn vec_(a: Value) -> Value { json!({"t": "vec", "a": a}) }
 fn tup_(a: Vec<Value>) -> Value { json!({"t": "tuple", "a": a}) }
+fn nt_(n: &str, a: Value) -> Value { json!({"t": "newtype_struct", "n": n, "a": a}) }
 fn en_(n: &str, v: Vec<Value>) -> Value { json!({"t": "enum", "n": n, "v": v}) }
 fn var_(n: &str, k: &str, a: Value) -> Value { json!({"n": n, "k": k, "a": a}) }
 
@@ -1014,6 +1032,47 @@ pub fn gen(ctx: &Ctx) -> Vec<Value> {
         }
         let sub = rng.fork().0;
         push(&mut out, json!({"kind": "deep", "ty": s_("S", vec![("a", ty)]), "opts": default_opts(), "samples": [], "overwrites": []}), sub);
+    }
+    // (2b) transparent wrappers: `Option` / newtype structs add no path segment.  Finite chains around the limit of 20
+    // wrappers at one position (alternating, options only, newtypes only), and RECURSIVE definitions (`recdef` / `rec`):
+    // through wrappers only (`struct Node(Option<Box<Node>>)`, `struct N(Box<N>)`), through containers, and mixed
+    for d in [1usize, 19, 20, 21, 22, 40] {
+        for pat in 0..3 {
+            let mut ty = l_("i32");
+            for k in 0..d {
+                ty = match pat {
+                    0 => opt_(ty),
+                    1 => nt_(&format!("N{k}"), ty),
+                    _ => if k % 2 == 0 { opt_(ty) } else { nt_(&format!("N{k}"), ty) },
+                };
+            }
+            let sub = rng.fork().0;
+            push(&mut out, json!({"kind": "wrappers", "ty": s_("S", vec![("a", l_("u8")), ("w", ty)]), "opts": default_opts(), "samples": [], "overwrites": []}), sub);
+        }
+    }
+    let rec_ = || json!({"t": "rec"});
+    let recdef_ = |body: Value| json!({"t": "recdef", "a": body});
+    let recursive: Vec<(&str, Value)> = vec![
+        ("node-newtype-option", recdef_(nt_("Node", opt_(rec_())))),
+        ("option-newtype", recdef_(opt_(nt_("W", rec_())))),
+        ("newtype-only", recdef_(nt_("N", rec_()))),
+        ("option-only", recdef_(opt_(rec_()))),
+        ("two-newtypes-option", recdef_(nt_("A", nt_("B", opt_(rec_()))))),
+        ("list-node", recdef_(s_("Node", vec![("value", l_("i32")), ("next", opt_(rec_()))]))),
+        ("rose", recdef_(nt_("Rose", vec_(rec_())))),
+        ("tree-enum", recdef_(en_("Tree", vec![var_("Leaf", "unit", Value::Null), var_("Node", "newtype", rec_())]))),
+        ("mixed", recdef_(nt_("A", opt_(vec_(nt_("B", opt_(rec_()))))))),
+        ("tuple", recdef_(json!({"t": "tuple", "a": [l_("u8"), opt_(rec_())]}))),
+    ];
+    for (name, ty) in recursive {
+        for budget in [Value::Null, json!(1), json!(500)] {
+            let sub = rng.fork().0;
+            let mut o = default_opts();
+            if !budget.is_null() {
+                o["from_type_budget"] = budget;
+            }
+            push(&mut out, json!({"kind": "recursive", "rec": name, "ty": s_("S", vec![("a", l_("u8")), ("w", ty.clone())]), "opts": o, "samples": [], "overwrites": []}), sub);
+        }
     }
     for nv in [1usize, 5, 99, 100, 101, 127, 128, 129] {
         let vs: Vec<Value> = (0..nv).map(|i| var_(&format!("V{i}"), "newtype", l_("i32"))).collect();
